@@ -15,10 +15,10 @@ import (
 
 var (
 	AllArgKinds = []Kind{KString, KStringPtr, KStringSlice, KInt, KInt8, KInt16, KInt32, KInt64, KUint, KUint8, KUint16,
-		KUint32, KUint64, KIntSlice, KIntPtr, KUint8Slice, KFloat32, KFloat64, KFloatSlice, KDuration, KDurSlice, KMapSS, KMapSI, KMapIS,
+		KUint32, KUint64, KIntSlice, KIntPtr, KUint8Slice, KFloat32, KFloat64, KFloatSlice, KDuration, KDurSlice, KDurPtr, KMapSS, KMapSI, KMapIS, KMapFS,
 		KUpper, KUpperSlice, KTri}
 	FlagKinds = []Kind{KBool, KBoolSlice, KBoolPtr}
-	FuncKinds = []Kind{KFunc0, KFuncS, KFuncI}
+	FuncKinds = []Kind{KFunc0, KFuncS, KFuncI, KFunc0E, KFuncSE}
 	AllKinds  = append(append(append([]Kind{}, AllArgKinds...), FlagKinds...), FuncKinds...)
 )
 
@@ -36,6 +36,8 @@ type GenCfg struct {
 	Req        int // percent of options marked required
 	Choices    bool
 	FlagChoice bool // also put choices on flags (accepted by the library)
+	CbErr      bool // error-returning callbacks may fail
+	FieldPool  bool // field names from a small pool (unique per struct only, as in real programs)
 	Defaults   bool
 	Env        bool
 	OptArg     bool
@@ -51,6 +53,7 @@ type GenCfg struct {
 	NsDelims   []string
 	NonASCII   bool
 	PosReq     bool
+	PosSplit   bool // sometimes declare the positionals in two positional-args structs
 	ProgOnly   bool // only programmatic (executable) commands
 	ByTagPct   int  // percent of commands declared by tag (default 50)
 	CmdPct     int  // percent of commands (below max depth) having sub-commands (default 70)
@@ -106,6 +109,8 @@ type declGen struct {
 	nField  int
 	help    bool
 	nsDelim string
+	// field names used in the struct currently being generated (FieldPool)
+	curFields map[string]bool
 }
 
 func (g *declGen) field(prefix string) string {
@@ -162,6 +167,9 @@ func genValidText(t *rapid.T, k Kind, base int) string {
 		key := genValidText(t, kk, base)
 		if kk == KString {
 			key = rapid.SampledFrom([]string{"k", "key", "a", "b", "é", "k2", "x y"}).Draw(t, "mapkey")
+		}
+		if kk == KFloat64 {
+			key = rapid.SampledFrom([]string{"1.5", "2", "0.25", "-3", "10", "1e3"}).Draw(t, "mapfkey")
 		}
 		return key + ":" + genValidText(t, vk, base)
 	}
@@ -221,6 +229,9 @@ func genInvalidText(t *rapid.T, k Kind, base int) string {
 		if kk == KInt {
 			return genInvalidText(t, KInt, base) + ":v"
 		}
+		if kk == KFloat64 {
+			return "notafloat:v"
+		}
 		return "" // map[string]string accepts anything
 	}
 	k = k.Elem()
@@ -264,6 +275,16 @@ func (g *declGen) opt(ns *nameSets, nsPrefix string) Opt {
 	t, cfg := g.t, g.cfg
 	g.nOpt++
 	o := Opt{ID: fmt.Sprintf("o%d", g.nOpt), Field: g.field("F"), Kind: rapid.SampledFrom(cfg.Kinds).Draw(t, "kind")}
+	if cfg.FieldPool && g.curFields != nil {
+		f := rapid.SampledFrom([]string{"Level", "Name", "Verbose", "Value", "Path", "Count", "Mode"}).Draw(t, "fieldName")
+		if !g.curFields[f] {
+			g.curFields[f] = true
+			o.Field = f
+		}
+	}
+	if cfg.CbErr && (o.Kind == KFunc0E || o.Kind == KFuncSE) && pct(t, "cbErr", 40) {
+		o.CbErr = true
+	}
 	hasShort := pct(t, "hasShort", 65)
 	hasLong := pct(t, "hasLong", 80) || !hasShort
 	if hasShort {
@@ -351,6 +372,9 @@ func (g *declGen) group(ns *nameSets, nsPrefix string, depth int, allowEmpty boo
 	t, cfg := g.t, g.cfg
 	g.nGrp++
 	gr := Group{Field: g.field("G"), Desc: fmt.Sprintf("Group %d", g.nGrp)}
+	savedFields := g.curFields
+	g.curFields = map[string]bool{}
+	defer func() { g.curFields = savedFields }()
 	if cfg.Desc && pct(t, "grpLong", 30) {
 		gr.LongDesc = fmt.Sprintf("long description of group %d", g.nGrp)
 	}
@@ -436,6 +460,9 @@ func (g *declGen) positional() *Positional {
 		}
 		p.Args = append(p.Args, pa)
 	}
+	if g.cfg.PosSplit && len(p.Args) >= 2 && pct(t, "posSplit", 35) {
+		p.Split = rapid.IntRange(1, len(p.Args)-1).Draw(t, "posSplitAt")
+	}
 	if g.cfg.PosReq && pct(t, "posStructReq", 35) {
 		p.Required = rapid.SampledFrom([]string{"yes", "1", "true"}).Draw(t, "posStructReqVal")
 	}
@@ -510,6 +537,11 @@ func (g *declGen) cmd(c *Cmd, depth int) {
 			sc.SubOpt = pct(t, "subOpt", cfg.SubOpt)
 			g.cmd(&sc, depth+1)
 			c.Cmds = append(c.Cmds, sc)
+		}
+		if cfg.Hidden && pct(t, "allCmdsHidden", 8) {
+			for i := range c.Cmds {
+				c.Cmds[i].Hidden = true
+			}
 		}
 	}
 }
@@ -707,6 +739,10 @@ func (g *argvGen) emitCluster() {
 		o := rapid.SampledFrom(fl).Draw(t, "clusterFlag")
 		s += o.Short
 		g.used = append(g.used, o)
+	}
+	if g.cfg.WUnknown > 0 && pct(t, "clusterUnknownTail", 12) {
+		g.out = append(g.out, s+g.unknownShort()+rapid.SampledFrom([]string{"", "=1", "z"}).Draw(t, "clusterUnkTail"))
+		return
 	}
 	if len(argt) > 0 && pct(t, "clusterArg", 40) {
 		o := rapid.SampledFrom(argt).Draw(t, "clusterArgOpt")
